@@ -260,7 +260,8 @@ class AstAnalyzer:
                 # Analysis assumes loop may execute zero times. Results can be improved
                 # for loops that execute at least once.
                 loop_var_set = {_get_loop_var(stmt, self._formatter)}
-                used_after_loop = live_out.difference(loop_var_set)
+                # The loop variable is not assigned when the loop executes zero times.
+                used_after_loop = live_out
                 used_inside_loop = visit_block(stmt.body, set()).difference(loop_var_set)
                 used_in_loop_header = _used_vars(stmt.iter)
                 return used_inside_loop | used_in_loop_header | used_after_loop
